@@ -394,6 +394,53 @@ LEMMAS['H3'] = dict(jobs=jobs_H3, run=run_H3, units=['lib'], asm=True,
     bound='keys of length <= 3 (all length pairs in thorough, 6 pairs quick), symbolic key bytes; interpreted and compiled light VMs; one call', symbolic='key bytes, prior binding (object identity, address reuse), initialised flag',
     stubs=['std::string := SSO model', 'Argon2/Blake2 generator/JIT code generation := recorders', 'cache->initialize := recorder'], outside='sequences violating the documented contract (hash on a VM bound to a released cache without re-binding)')
 
+# ---------------------------------------------------------------------------------------------- H8: v1 <-> v2 switch
+def run_H8(ctx, case):
+    """setFlagV2 / clearFlagV2 of the VM classes built by randomx_create_vm, from an arbitrary flag word: one inductive step per switch"""
+    from lemmas import api
+    q = Q(30); mod = Module(ctx['ll']['lib']); F = flagvals(); npaths = [0]; V2 = F['V2']
+    def one(fk):
+        it = Interp(mod); it.fork = fk; bind_templates(it, ctx)
+        H0 = Heap(it, fail=False); cxxlib.install(it, H0); run_ctors(it, mod)
+        H = Heap(it, fail=False); cxxlib.install(it, H); events = []; _quiet_data_paths(it, mod, events)
+        C = fake_cache(it, mod, 'C', key=b'k', shared=True)
+        flags = (F['JIT'] if case['jit'] else 0) | (F['HARD_AES'] if case.get('aes') else 0)
+        vm = it.call('randomx_create_vm', [flags, C, Ptr(None, 0)])
+        if not isinstance(vm, Ptr) or vm.obj is None: raise Exception('randomx_create_vm returned no machine')
+        L = api.vm_layout(mod); f = z3.BitVec('vmFlags_before', 32); it.mem.store(Ptr(vm.obj, L['vmFlags']), f, 4)
+        vp = it.mem.load(Ptr(vm.obj, 0), 8); meth = {}
+        for k in range(0, 24):
+            try: fp = it.mem.load(Ptr(vp.obj, vp.off + 8 * k), 8)
+            except Exception: break
+            if isinstance(fp, Ptr) and str(fp.obj).startswith('@fn:'):
+                nm = fp.obj[4:]
+                if re.search(r'\d+setFlagV2Ev$', nm): meth['set'] = nm
+                if re.search(r'\d+clearFlagV2Ev$', nm): meth['clear'] = nm
+        if set(meth) != {'set', 'clear'}: raise Exception('setFlagV2 / clearFlagV2 not found in the vtable of the created machine')
+        seen = []
+        for nm in list(mod.funcs):
+            if re.search(r'JitCompiler\w*8setFlagsE', nm):
+                def rec(s, a, nm=nm):
+                    seen.append(a); h = s.hooks.pop(nm); r = s.call(nm, a); s.hooks[nm] = h; return r
+                it.hooks[nm] = rec
+        it.call(meth[case['op']], [vm]); npaths[0] += 1; pc = fk['pc']
+        exp = (f | V2) if case['op'] == 'set' else (f & ~V2)
+        tag = '%s %s machine, %sFlagV2()' % ('compiled' if case['jit'] else 'interpreted', 'hard-AES' if case.get('aes') else 'soft-AES', case['op'])
+        q.prove_eq(pc, it.mem.load(Ptr(vm.obj, L['vmFlags']), 4), exp, tag + ': version bit %s whatever it was before, every other flag unchanged' % ('set' if case['op'] == 'set' else 'cleared'), 32)
+        if case['jit']:
+            ok = len(seen) == 1 and isinstance(seen[0][0], Ptr) and seen[0][0].obj == vm.obj
+            q.n += 1; q.unsat += ok; q.sat += (not ok)
+            if not ok: q.failed.append((tag + ': the code generator of this machine is told the new flags (setFlags called %d times)' % len(seen), {}))
+            else: q.prove_eq(pc, seen[0][1], exp, tag + ': flags handed to the code generator == flags of the machine', 32)
+    res, nq = explore(one, limit=64); q.n += nq
+    return result('H8', str(case), q, paths=npaths[0])
+
+LEMMAS['H8'] = dict(jobs=lambda ctx: [dict(jit=j, op=o, aes=a) for j in (0, 1) for o in ('set', 'clear') for a in ((0,) if ctx['tier'] == 'quick' else (0, 1))], run=run_H8, units=['lib'], asm=True,
+    functions=['randomx_create_vm', 'randomx_vm::setFlagV2', 'randomx_vm::clearFlagV2', 'CompiledVm::setFlagV2', 'CompiledVm::clearFlagV2', 'JitCompilerX86::setFlags'],
+    doc='version switch, one inductive step from an arbitrary flag word: setFlagV2 sets and clearFlagV2 clears the version bit whatever it was before (a redundant switch is a no-op), no other flag changes, and a compiled machine hands exactly the new flags to its code generator',
+    bound='light-mode interpreted and compiled machines as built by randomx_create_vm (soft AES; + hard AES thorough); one switch; every 32-bit flag word', symbolic='flag word before the switch',
+    stubs=['Argon2/Blake2 generator/JIT code generation := recorders', 'operator new := ghost heap (no failure)'], outside='full-memory machines (same class templates, dataset binding not built in this harness)')
+
 # ---------------------------------------------------------------------------------------------- K1: VM glue around the engines (C01, C03)
 def run_K1(ctx, case):
     """what run(seed) of every VM class does around the engine: program generation with the right AES flavour into the VM's own program buffer,
